@@ -60,7 +60,10 @@ def norm(v):
     if isinstance(v, (str, np.str_)):
         return ["s", str(v).encode("utf-8", "surrogateescape").hex()]
     if isinstance(v, np.void):
-        return ["v", v.tobytes().hex()]
+        b = v.tobytes()
+        if len(b) > 200000:
+            return ["V", len(b), hashlib.sha256(b).hexdigest()]
+        return ["v", b.hex()]
     if isinstance(v, (bool, np.bool_)):
         return ["b", bool(v)]
     if isinstance(v, (int, np.integer)):
